@@ -59,13 +59,19 @@ check('C10', 'store', 'exploration', STORE_TECH,
       'independently drawn spelling; after every step every attribute of every live instance is read under every case pattern '
       '(exhaustive for names of up to four letters) and compared with the single value the reference holds, as is the serialized '
       'text; writes to referential attributes must be rejected without effect.', STORE_NOTE, 'DESIGN.md §4 C10')
-check('C11', 'store', 'exploration', STORE_TECH,
-      'In every state reached by the histories (under-populated ends, null and duplicate identifiers provoked on purpose) '
-      'check_association_integrity (all / one association), check_uniqueness_constraint (all / one class), '
-      'check_subtype_integrity and is_consistent are compared with nested-loop counts written from the statement; where the '
-      'statement admits two readings the check accepts either.',
-      STORE_NOTE + ' Over-populated ends (only reachable by loading duplicate keys) and the command-line tools are covered by the delivery engine once committed.',
-      'DESIGN.md §4 C11')
+check('C11', 'c11', 'exploration',
+      'deterministic simulation: two engines share the runs -- seeded API histories with injected rejected calls (store profile, '
+      'also starting from loaded populations) and seeded deliveries of populations with duplicate / null / dangling keys as files '
+      'on a simulated disk, including in-process runs of both command-line tools; nested-loop counts from the statement as oracle',
+      'Even runs: in every state reached by API histories (under-populated ends, null and duplicate identifiers provoked on '
+      'purpose, histories that start from a loaded population) check_association_integrity (all / one association), '
+      'check_uniqueness_constraint (all / one class), check_subtype_integrity and is_consistent are compared with nested-loop '
+      'counts written from the statement. Odd runs: a seeded population with duplicate keys (over-populated ends, only reachable '
+      'by loading) is written to the simulated disk in a seeded file order; the same counts are compared on the loaded model, and '
+      'xtuml.consistency_check.main, bridgepoint.consistency_check.main and both `python -m` entry points are run in-process on '
+      'the files with random -r/-R/-k subsets: return value and exit status must match the counts. Where the statement admits two '
+      'readings (an instance repeating under two identifiers; the empty string as null of a string identifier) either is accepted.',
+      STORE_NOTE, 'DESIGN.md §4 C11, §12.2')
 check('C16', 'store', 'exploration', STORE_TECH,
       'Chains and rings of a reflexive conditional 1:1 association arise from relate/unrelate/delete histories in arbitrary '
       'creation order (rejected relates included); after which sets made of whole chains, a single ring, the empty set, or '
